@@ -91,7 +91,7 @@ func judge(c Case, w *vkit.W) {
 		w.Fail(c, "marshal-error", fmt.Sprintf("Size(%d).MarshalText() error %v (switches %03b)", c.S, err, c.Switches))
 	} else {
 		back := other
-		if err := back.UnmarshalText(text); err != nil || back != s {
+		if err := back.UnmarshalText(w.Scratch(string(text))); err != nil || back != s { // read from a reused caller buffer
 			w.Fail(c, "text-round-trip", fmt.Sprintf("Size(%d): MarshalText = %q, UnmarshalText -> %d, %v (switches %03b)", c.S, text, uint64(back), err, c.Switches))
 		}
 	}
@@ -106,7 +106,7 @@ func judge(c Case, w *vkit.W) {
 			w.Fail(c, "marshal-json-invalid", fmt.Sprintf("Size(%d).MarshalJSON() = %q is not valid JSON (switches %03b)", c.S, js, c.Switches))
 		}
 		back := other
-		if err := back.UnmarshalJSON(js); err != nil || back != s {
+		if err := back.UnmarshalJSON(w.Scratch(string(js))); err != nil || back != s {
 			w.Fail(c, "json-round-trip", fmt.Sprintf("Size(%d): MarshalJSON = %q, UnmarshalJSON -> %d, %v (switches %03b)", c.S, js, uint64(back), err, c.Switches))
 		}
 		w.RetainBytes(c, "MarshalJSON", js, string(js))
@@ -131,12 +131,12 @@ func judge(c Case, w *vkit.W) {
 		if err != nil || got != s {
 			w.Fail(c, "rendering-round-trip", fmt.Sprintf("Size(%d).%s() = %q, DefaultParser[string] -> %d, %v", c.S, r.name, r.text, uint64(got), err))
 		}
-		got, err = size.DefaultParser([]byte(r.text), 0)
+		got, err = size.DefaultParser(w.Scratch(r.text), 0)
 		if err != nil || got != s {
 			w.Fail(c, "rendering-round-trip", fmt.Sprintf("Size(%d).%s() = %q, DefaultParser[[]byte] -> %d, %v", c.S, r.name, r.text, uint64(got), err))
 		}
 		back := other
-		if err := back.UnmarshalText([]byte(r.text)); err != nil || back != s {
+		if err := back.UnmarshalText(w.Scratch(r.text)); err != nil || back != s {
 			w.Fail(c, "rendering-round-trip", fmt.Sprintf("Size(%d).%s() = %q, UnmarshalText -> %d, %v", c.S, r.name, r.text, uint64(back), err))
 		}
 	}
